@@ -105,6 +105,16 @@ def mutate_steps(r, steps):
             i = r.choice(cands)
             p = bytes.fromhex(steps[i]["payload"])
             steps[i]["payload"] = (p[:-1] if r.chance(0.5) else p + b"Z").hex()
+    elif len(steps) >= 2 and k < 0.50:  # block 0 itself contradicts its block size
+        if steps[0]["b1"] is not None and steps[0]["b1"][1]:
+            if len(steps) >= 3 and r.chance(0.6):
+                # block 0 carries the bytes of blocks 0 and 1 under one block's size; block 1 is never sent, block 2
+                # would "fit" behind what block 0 brought
+                steps[0]["payload"] = (bytes.fromhex(steps[0]["payload"]) + bytes.fromhex(steps[1]["payload"])).hex()
+                steps = [steps[0]] + steps[2:]
+            else:
+                p = bytes.fromhex(steps[0]["payload"])
+                steps[0]["payload"] = (p[:-1] if r.chance(0.5) else p + b"Z").hex()
     elif len(steps) >= 2 and k < 0.54:  # last block first
         steps = [steps[-1]] + steps[:-1]
     elif len(steps) >= 2 and k < 0.62:  # drop block 0 (unknown transfer)
@@ -877,6 +887,17 @@ def execute(sim, scn):
             num, more, szx = op["b1"]
             size = size_of(szx)
             ent = spool.get(key)
+            if num == 0 and ((len(payload) != size) if more else (len(payload) > size)):
+                # block 0 whose payload contradicts its own block size: refused like any other such block -- what it
+                # carries is not "block 0", and nothing may be built on it
+                sim.probe("wrong_payload_length_block0")
+                if mine:
+                    sim.violation("C06/handler-invoked-for-bad-block", ident)
+                if code != rc.BAD_REQUEST:
+                    sim.violation("C06/wrong-block-length-not-400", dict(ident, code=rc.code_str(code), block=0))
+                if ent is not None:
+                    ent["uncertain"] = True  # (whether an older assembly under this key survives is left open)
+                continue
             if num == 0:
                 if ent is not None:
                     sim.probe("restart_at_zero")
